@@ -278,6 +278,10 @@ def gen_proc_config(r, spec, target, stored=(), tier="quick", allow_pool=True):
            "allow_rechunk": r.random() < 0.7, "max_messages": r.randint(1, 4)}
     if processor == "threaded_mailbox" and allow_pool and r.random() < 0.3:
         cfg["max_workers"] = r.choice([2, 3])
+        if r.random() < 0.3:
+            # multiprocessing mode: 'process'-parallel plugins are inlined into a ParallelSourcePlugin that runs
+            # behind the process-pool stub (see decorate() of the checks for the per-plugin flags)
+            cfg["allow_multiprocess"] = True
     if processor == "threaded_mailbox":
         # the processor applies max_messages to lazy mailboxes too
         if reconvergent(spec, target) and has_lag(spec, target, stored):
